@@ -155,6 +155,13 @@ def fold_preference_rules(ctx, facts, g, te_parse):
     ctx.ob("C05.4", "%s|first-supported-wins" % g.id, "only codings the token parser recognises take part in the comparison", uses_parser, where)
 
 
+def is_te_parse(t, te_parse):
+    """a call of the token parser: directly, or through `str::parse::<TransferEncoding>()` (which is FromStr::from_str)"""
+    if call_name(t) == te_parse:
+        return True
+    return bool(re.search(r"<impl str>::parse$", call_name(t))) and ("parse::<%s>" % TE) in (t.get("res_name") or "")
+
+
 def te_parser(facts, cte):
     """the client-preference token parser, bound by role: the function of the chooser's file that turns one &str into a TransferEncoding
     (`Result<TransferEncoding, _>` / `Option<TransferEncoding>`)"""
@@ -456,7 +463,7 @@ def run(ctx):
                 continue
             o = p.origin(bs[0])
             if o[0] == "binop" and o[1] == "Le" and o[3][0] == "const" and o[3][1] == ("float", 0.0) and "1" in origin_fields(o[2]):
-                fs = set(p.call_blocks(lambda t: (call_name(t) == te_parse)))
+                fs = set(p.call_blocks(lambda t: is_te_parse(t, te_parse)))
                 nx = set(p.call_blocks(lambda t: call_matches(t, r"Iter<.*> as std::iter::Iterator>::next$")))
                 r = p.reach([bs[1]], blocked=nx, unwind=False)
                 skip_ok = not (r & fs) and not any(x in r for x in p.returns())
@@ -472,7 +479,7 @@ def run(ctx):
                                 skip_ok = True
         ctx.ob("C05.4", "%s|skip-q-zero" % p.id, "an entry with q <= 0 (or a q that is not a number) is dropped before the codings are tried", skip_ok, "%s:%d" % (p.file, p.line))
         # first accepted coding is returned
-        fs = p.call_blocks(lambda t: (call_name(t) == te_parse))
+        fs = p.call_blocks(lambda t: is_te_parse(t, te_parse))
         ok = len(fs) == 1
         if ok:
             rs = shared.result_switch(p, fs[0])
@@ -486,11 +493,11 @@ def run(ctx):
                 if call_matches(t, r"Iterator>?::find_map(::<|$)") and len(t["args"]) > 1:
                     co = p.origin(t["args"][1])
                     cf = facts.fns.get(co[1]) if co[0] == "agg" else None
-                    if cf is not None and cf.call_blocks(lambda t2: (call_name(t2) == te_parse)):
+                    if cf is not None and cf.call_blocks(lambda t2: is_te_parse(t2, te_parse)):
                         recv = p.origin(t["args"][0])
                         if not origin_has_call(recv, r"::rev$"):
                             o0 = cf.origin_place({"l": 0, "p": []})
-                            ok = (origin_has_call(o0, r"Result::<T, E>::ok$") and origin_has_call(o0, re.escape(te_parse) + "$")) or (o0[0] == "call" and o0[1] == te_parse)
+                            ok = (origin_has_call(o0, r"Result::<T, E>::ok$") and (origin_has_call(o0, re.escape(te_parse) + "$") or origin_has_call(o0, r"<impl str>::parse$"))) or (o0[0] == "call" and o0[1] == te_parse)
         ctx.ob("C05.4", "%s|first-supported-wins" % p.id, "the first coding (in preference order) that is supported is the answer", ok, "%s:%d" % (p.file, p.line))
     elif len(folds) == 1:
         fold_preference_rules(ctx, facts, folds[0], te_parse)
